@@ -45,7 +45,7 @@ static Case gen_c07() {
     Config g = gen_config(G_ALL);
     if (coin(1, 12)) g.ct = CT_MD5;
     cfg_to(c, g);
-    size_t cap = opts().tier == "thorough" ? (1 << 20) : (1 << 15);
+    size_t cap = opts().tier == "thorough" ? (1 << 20) : (1 << 18);
     gen_buffer(c, "data", gen_length(g, cap));
     c.set("legacy", coin(1, 4) ? 1 : 0);
     return c;
